@@ -357,3 +357,75 @@ func VerifC05_AcceptSessions() {
 		verifapi.Assert(verifSessClosed[i] >= 1, "a session is closed when its streams are over")
 	}
 }
+
+// ---- C05: one carrier, several packets per message, a failing downstream write -------------------
+//
+// A carrier may deliver its ClientID and several packets in one message: all of them reach the
+// session, in order. When writing to the carrier fails, turbotunnel mode ends and the carrier is
+// closed (no handler stays behind for a dead carrier).
+
+type verifFailingCarrier struct {
+	verifCarrierConn
+	failWrites bool
+	writeCalls int
+	closedCh   chan struct{}
+}
+
+// like a real net.Conn, Close unblocks a pending Read
+func (c *verifFailingCarrier) Read(p []byte) (int, error) {
+	if c.pos >= len(c.in) {
+		select {
+		case <-c.endRead:
+			return 0, io.EOF
+		case <-c.closedCh:
+			return 0, errors.New("read on a closed carrier")
+		}
+	}
+	return c.verifCarrierConn.Read(p)
+}
+func (c *verifFailingCarrier) Close() error {
+	if !c.closed {
+		close(c.closedCh)
+	}
+	return c.verifCarrierConn.Close()
+}
+
+func (c *verifFailingCarrier) Write(p []byte) (int, error) {
+	c.writeCalls++
+	if c.failWrites {
+		return 0, errors.New("carrier write failed (stub)")
+	}
+	return c.verifCarrierConn.Write(p)
+}
+
+func VerifC05_CarrierIO() {
+	cid := verifSessionID(0)
+	pconn := turbotunnel.NewQueuePacketConn(ClientMapAddr(""), clientMapTimeout)
+	end := make(chan struct{})
+	conn := &verifFailingCarrier{failWrites: verifapi.Bool("downstream write fails"), closedCh: make(chan struct{})}
+	conn.in = append(append(append([]byte{}, cid[:]...), 0x82, 'a', 'b'), 0x81, 'c') // ClientID, "ab", "c" in one message
+	conn.endRead = end
+	returned := false
+	go func() {
+		turbotunnelMode(conn, ClientMapAddr(""), pconn)
+		returned = true
+	}()
+	verifapi.Quiesce()
+	var buf [8]byte
+	n, addr, err := pconn.ReadFrom(buf[:])
+	verifapi.Assert(err == nil && n == 2 && buf[0] == 'a' && buf[1] == 'b' && addr == net.Addr(cid), "C05: the first packet of a carrier message reaches the session under the carrier's ClientID")
+	n, addr, err = pconn.ReadFrom(buf[:])
+	verifapi.Assert(err == nil && n == 1 && buf[0] == 'c' && addr == net.Addr(cid), "C05: packets that arrive in the same carrier message as an earlier packet are not lost")
+	pconn.WriteTo([]byte{'d'}, cid) // a downstream packet for this session
+	verifapi.Quiesce()
+	if conn.failWrites {
+		verifapi.Cover("downstream write failed")
+		verifapi.Assert(returned && conn.closed, "when writing to the carrier fails, turbotunnel mode ends and the carrier is closed")
+	} else {
+		verifapi.Cover("downstream packet written")
+		verifapi.Assert(len(conn.out) == 2 && conn.out[0] == 0x81 && conn.out[1] == 'd', "the downstream packet is written to the carrier, encapsulated")
+		close(end) // the carrier is cut
+		verifapi.Quiesce()
+		verifapi.Assert(returned && conn.closed, "when the carrier is cut, turbotunnel mode ends and the carrier is closed")
+	}
+}
